@@ -9,7 +9,7 @@
    `find_cs s n cbp mbf` is FindMatchingDataFromCS: new state and the list of answers the code may give ([] = nil; more
    than one only for CanBePrefix, where Go map order decides). *)
 From Coq Require Import List NArith ZArith Bool.
-From PitCs Require Import Model Spec Lib TreeInv Cs CacheSpec C07.
+From PitCs Require Import Model Spec Lib TreeInv Cs CacheSpec C07 Tree.
 Import ListNotations.
 Open Scope Z_scope.
 
@@ -78,6 +78,17 @@ Theorem cs_exact_complete : forall t0 c sv ad life ops n mbf e,
   snd (find_cs s n false mbf) = [e].
 Proof. exact exact_complete. Qed.
 Print Assumptions cs_exact_complete.
+
+(* The CanBePrefix answers: findMatchingDataCSPrefix (Model.dfs: own entry, else the children in whatever order the Go map
+   yields — `ord` is any reordering) answers inside the flat candidate list used by find_cs, and answers nil only when that
+   list is empty; so cs_sound / cs_bytes_latest above cover the code's search for every map iteration order. *)
+Theorem cs_tree_flat_equiv : forall t0 c sv ad life ops n mbf ord,
+  let s := run (start t0 c sv ad life) ops in
+  (forall l x, In x (ord l) <-> In x l) -> In n (paths (nodes s)) ->
+  (forall fuel e, dfs ord s mbf fuel n = Some e -> In e (prefix_cands s n mbf)) /\
+  (dfs ord s mbf (depth_of s) n = None -> prefix_cands s n mbf = []).
+Proof. exact (fun t0 c sv ad life ops n mbf ord => tree_flat_equiv _ n mbf ord (reach_inv t0 c sv ad life ops)). Qed.
+Print Assumptions cs_tree_flat_equiv.
 
 (* The extracted oracle c_judge means what it says (used by the runner on the implementation's answers). *)
 Theorem c_judge_meaning : forall c n cbp mbf m w, c_judge c n cbp mbf (Some (m, w)) = 0%N ->
